@@ -30,7 +30,9 @@ def gen_content(rng, maxs=4, maxv=5):
     variants = []
     for j in range(nv):
         nal = rng.choice([2, 2, 3, 4])
-        variants.append({"id": f"v{j}", "chrom": "1" if j < 3 else "2", "pos": 10 * (j + 1) if j < 3 else 10 * (j - 2), "alleles": ALLELES[:nal]})
+        # three variants each on chromosomes 1 and 2, any further ones on chromosome 10 (a .bp file then lists 1, 2, 10:
+        # not the lexicographic order of the names)
+        variants.append({"id": f"v{j}", "chrom": "1" if j < 3 else ("2" if j < 6 else "10"), "pos": 10 * (j + 1) if j < 3 else (10 * (j - 2) if j < 6 else 10 * (j - 5)), "alleles": ALLELES[:nal]})
     data = [[[rng.randrange(len(variants[j]["alleles"])), rng.randrange(len(variants[j]["alleles"]))] for j in range(nv)] for _ in range(ns)]
     labels_in_data = rng.sample(LABELS, rng.randint(1, 2))
     # ancestry in blocks along each strand (a label change between variants of one chromosome)
@@ -176,7 +178,7 @@ def describe_direct(case, obs):
 def gen_files(rng, tier):
     n = 60 if tier == "quick" else 2000
     for t in range(n):
-        c = gen_content(rng, maxs=3, maxv=5)
+        c = gen_content(rng, maxs=3, maxv=8)
         c["anc_source"] = rng.choice([None, "POP", "bp"])
         c["fmt_in"] = "pgen" if (c["anc_source"] != "POP" and rng.random() < 0.3) else "vcf.gz"
         c["fmt_out"] = rng.choice([".vcf", ".vcf.gz", ".pgen"])
@@ -253,7 +255,7 @@ def impl_files(case):
         GF.write_pgen(d / "g", case["samples"], variants, data)
         gfile = d / "g.pgen"
     else:
-        GF.write_vcf_text(d / "g.vcf", case["samples"], variants, data, pops=pops, contigs=["1", "2"])
+        GF.write_vcf_text(d / "g.vcf", case["samples"], variants, data, pops=pops, contigs=["1", "2", "10"])
         GF.compress_index(d / "g.vcf", d / "g.vcf.gz")
         gfile = d / "g.vcf.gz"
     if case["anc_source"] == "bp":
@@ -263,7 +265,7 @@ def impl_files(case):
                 s = case["samples"][i]
                 for k in (0, 1):
                     f.write(f"{s}_{k+1}\n")
-                    for chrom in ("1", "2"):
+                    for chrom in ("1", "2", "10"):
                         vs = [(j, v) for j, v in enumerate(case["variants"]) if v["chrom"] == chrom]
                         for n_, (j, v) in enumerate(vs):
                             end = v["pos"] if n_ < len(vs) - 1 else SD.MAX
